@@ -84,6 +84,24 @@ fn gen_with(tier: &str, seed: u64, heavy_scripts: bool, emit: &mut dyn FnMut(Str
         chunks.push(cur);
         emit(dmx_case(0, &scripts, &chunks));
     }
+    if !heavy_scripts {
+        // table-driven registrations colliding with the tables' own PIDs: a program map listing its own PID / PID 0 / the null
+        // PID as an elementary stream, a PAT pointing at PID 0; then packets on every PID involved
+        for v in 0..(if big { 200 } else { 24 }) {
+            let pool = pid_pool(&mut rng, 4);
+            let (p, a) = (pool[0], pool[1]);
+            let mut m = Mux::new();
+            let pat = section(0, 1, rng.below(32) as u8, true, &pat_body(&[(1, if v % 6 == 5 { 0 } else { p })], &mut rng));
+            let own = match v % 3 { 0 => p, 1 => 0, _ => 0x1fff };
+            let streams: Vec<(u8, u16, Vec<u8>)> = vec![(0x1b, a, vec![]), (0x0f, own, vec![]), (0x1b, pool[2], vec![])];
+            let pmt = section(2, 1, rng.below(32) as u8, true, &pmt_body(a, &[], &streams, &mut rng));
+            m.psi(0, &pat, 0, 0, &mut rng); m.psi(p, &pmt, 0, 0, &mut rng);
+            for _ in 0..rng.range(4, 12) { let pid = *rng.pick(&[p, a, own, pool[2], pool[3], 0u16]); let pl = rng.bytes(184); m.data_packet(pid, false, &pl, &mut rng); }
+            m.psi(p, &pmt, 0, 0, &mut rng); m.psi(0, &pat, 0, 0, &mut rng);
+            for pid in [p, a, own, pool[2]] { let pl = rng.bytes(184); m.data_packet(pid, false, &pl, &mut rng); }
+            emit(dmx_case(0, "", &[m.bytes()]));
+        }
+    }
     if heavy_scripts {
         // one invocation queueing hundreds of requests (more than any fixed-size queue a table could need): inserts then
         // removes, many requests for one PID, alternating insert / remove
